@@ -29,6 +29,8 @@ CLAIMED = {
          "TLA+ model checking + spec->code edge replay + trace validation; TLC-enumerated document grammar"),
  "C09": ("fault_enumeration", "6 C09", "Durability.tla (Begin/Write/Commit/Ack with Crash enabled everywhere; invariants acknowledged=>durable and all-or-nothing; negative control SPLIT_COMMIT) model-checked by TLC; on the real engine a forked child dies (os._exit) before every SQL write/BEGIN/COMMIT event and after the commit of every state-changing operation, a fresh engine then opens the surviving file and every table is dumped raw; each experiment is validated by TraceC09.tla; SIGKILL at random instants during a workload",
          "TLA+ model checking of the transaction discipline + exhaustive crash-point injection on the real engine validated by TLC"),
+ "C10": ("model_checking", "6 C10", "Concurrency.tla (Enter/Acquire/SetVersion/SetIdentity/Exec/Release per session, shared identity and version fields, the lock) model-checked for 2x2, 3 and 4 sessions (negative control LOCKED=FALSE finds the identity mix-up); schedules forced on a real KmipEngine shared by real KmipSessions through a cooperative scheduler (yield points at every SQL statement, identity/version assignment, access decision, instrumented lock): serial orders, all plans with <= 2 pre-emptions on a grid, random plans; each recorded history is checked for linearizability against the sequential KmipEngine.tla by TLC (TraceLin.tla)",
+         "TLA+ model checking of the interleavings + forced schedules on the real code + TLC linearizability check of recorded histories"),
  "C11": ("model_checking", "6 C11", "TLC: RunRequest reads only (store, request); clause C11_placeholder on MC_C08; every request of random multi-client multi-version histories is compared with a fresh engine on a copy of the database (differential) and validated by TraceEngine.tla",
          "TLA+ model checking + trace validation; used-vs-fresh engine differential"),
 }
@@ -36,7 +38,6 @@ NOT_YET = {
  "C01": "check not built yet in this round (TTLV.tla / KmipSchema.tla planned, DESIGN 6 C01)",
  "C05": "check not built yet in this round",
  "C06": "check not built yet in this round",
- "C10": "check not built yet in this round",
  "C19": "check not built yet in this round",
  "C20": "check not built yet in this round",
 }
